@@ -294,6 +294,38 @@ func runD1(p *an.Prog, r *an.Result) {
 				}
 			case *ssa.Call:
 				cn := an.CallName(&x.Call)
+				if i := strings.Index(cn, "["); i > 0 {
+					cn = cn[:i]
+				}
+				if cn == "maps.Keys" || cn == "maps.Values" || cn == "maps.All" {
+					// an iterator over a map: in Go's random order unless it goes straight into a sorter
+					r.Counts["map iteration sites"]++
+					okSorted := x.Referrers() != nil && len(*x.Referrers()) > 0
+					if x.Referrers() != nil {
+						for _, u := range *x.Referrers() {
+							if _, dbg := u.(*ssa.DebugRef); dbg {
+								continue
+							}
+							c2, isCall := u.(*ssa.Call)
+							n2 := ""
+							if isCall {
+								n2 = an.CallName(&c2.Call)
+								if i := strings.Index(n2, "["); i > 0 {
+									n2 = n2[:i]
+								}
+							}
+							if n2 != "slices.Sorted" && n2 != "slices.SortedFunc" && n2 != "slices.SortedStableFunc" {
+								okSorted = false
+							}
+						}
+					}
+					if okSorted {
+						r.OK(name, cn+"()", x.Pos(), "the iterator is consumed by slices.Sorted: the order of the result does not depend on the map's")
+					} else {
+						r.Bad(name, cn+"()", x.Pos(), fmt.Sprintf("%s iterates a Go map through %s without sorting the result at once: the order depends on Go's randomised map order", name, cn))
+					}
+					return
+				}
 				if cn != "(reflect.Value).MapKeys" && cn != "(reflect.Value).MapRange" {
 					return
 				}
